@@ -2,6 +2,7 @@ package main
 
 import (
 	"fmt"
+	"go/token"
 	"go/types"
 	"sort"
 	"strings"
@@ -79,6 +80,21 @@ func ruleStateCoverage(c *Ctx, r *Report) {
 		r.Unk(rule, "types", "", "State / serializedState struct types not found")
 		return
 	}
+	// fields that exist for DTLS 1.3 only: set by the DTLS 1.3 snapshot, not by the DTLS 1.2 one. A
+	// DTLS 1.3 state is refused at all four serialisation entry points (checked below), so such a
+	// field has no place in the DTLS 1.2 snapshot, the serialised form or the import.
+	only13 := map[string]bool{}
+	if g12, g13 := c.Fn("dtls.generateState"), c.Fn("dtls.generateState13"); g12 != nil && g13 != nil {
+		a12, a13 := returnedLiteral(g12, 0, "dtls.State"), returnedLiteral(g13, 0, "dtls.State")
+		if a12 != nil && a13 != nil {
+			s12, s13 := litFields(a12), litFields(a13)
+			for f := range s13 {
+				if _, in12 := s12[f]; !in12 {
+					only13[f] = true
+				}
+			}
+		}
+	}
 	// --- generateState: every State field set, from its own source
 	src12 := map[string][]string{
 		"localEpoch":            {"call (*internal/state.Common).LocalEpoch"},
@@ -121,6 +137,9 @@ func ruleStateCoverage(c *Ctx, r *Report) {
 		for _, f := range stFields {
 			v, ok := set[f]
 			key := short(fn) + ":" + f
+			if only13[f] && (gen.fn == "dtls.generateState" || ok) {
+				continue // DTLS 1.3 only; its source is decided by the exporter obligations
+			}
 			if !ok {
 				if why, allowed := gen.missing[f]; allowed && why != "" {
 					r.Note(rule, key, c.ipos(al), "not set: "+why)
@@ -247,6 +266,9 @@ func ruleStateCoverage(c *Ctx, r *Report) {
 			}
 		}
 		for _, f := range stFields {
+			if only13[f] {
+				continue
+			}
 			r.Check(written[f], rule, short(fn)+":writes:"+f, c.pos(fn.Pos()), "written", "deserialize never writes State."+f)
 		}
 		// the imported values are taken as they are: no arithmetic on the way in (the record counter in
@@ -275,6 +297,9 @@ func ruleStateCoverage(c *Ctx, r *Report) {
 		r.Sites += len(fn.Blocks)
 		loaded := fieldsLoadedFrom(fn, fn.Params[0])
 		for _, f := range stFields {
+			if only13[f] {
+				continue
+			}
 			key := short(fn) + ":consumes:" + f
 			uses := loaded[f]
 			if len(uses) == 0 {
@@ -413,6 +438,48 @@ func (c *Ctx) exporter13(r *Report, al *ssa.Alloc) {
 	if r.Prop != "C07" {
 		r.Note("exporter-secret", "dtls.generateState13:masterSecret", c.ipos(al), "DTLS 1.3 snapshot carries no exporter secret (decided under C07)")
 		return
+	}
+	// ... or, better, keyed by the connection's exporter_master_secret (RFC 8446 7.5): the snapshot
+	// takes it from the key schedule, and with the version bound to 1.3 the exporter reaches
+	// Derive-Secret over that field and an expansion under the label "exporter"
+	if hasGuard && !reach {
+		fields := litFields(al)
+		fromSchedule := false
+		if v, ok := fields["exporterMasterSecret"]; ok {
+			for _, l := range c.OriginsThrough(v, 0) {
+				if cl, isCall := l.(*ssa.Call); isCall && calleeName(&cl.Call) == "bytes.Clone" {
+					for _, l2 := range c.Origins(cl.Call.Args[0], 0) {
+						if _, f, _, ok := fieldLoad(l2); ok && f == "ExporterMasterSecret" {
+							fromSchedule = true
+						}
+					}
+				}
+				if _, f, _, ok := fieldLoad(l); ok && f == "ExporterMasterSecret" {
+					fromSchedule = true
+				}
+			}
+		}
+		w13 := (&Walk{Fn: fn, Follow: followSamePkg(fn), Assume: assumeAll(version13Atom(true))}).FromEntry()
+		keyed, labelled := false, false
+		for in := range w13.Reached {
+			cl, ok := in.(*ssa.Call)
+			if !ok {
+				continue
+			}
+			switch nm := calleeName(&cl.Call); {
+			case strings.HasSuffix(nm, "keyschedule.DeriveSecret") && len(cl.Call.Args) >= 2:
+				if _, f, _, ok := fieldLoad(cl.Call.Args[1]); ok && f == "exporterMasterSecret" {
+					keyed = true
+				}
+			case strings.HasSuffix(nm, "keyschedule.HkdfExpandLabel") && len(cl.Call.Args) >= 3:
+				if k, isK := cl.Call.Args[2].(*ssa.Const); isK && k.Value != nil && k.Value.ExactString() == `"exporter"` {
+					labelled = true
+				}
+			}
+		}
+		if fromSchedule || keyed || labelled {
+			r.Check(fromSchedule && keyed && labelled, "exporter-secret", "dtls.generateState13:exporter13", c.ipos(al), "the DTLS 1.3 exporter is keyed by the key schedule's exporter_master_secret (Derive-Secret, then the label exporter)", fmt.Sprintf("the DTLS 1.3 exporter is not the RFC 8446 7.5 construction over the connection's exporter_master_secret (secret from the key schedule: %v, Derive-Secret over it: %v, expansion under the label exporter: %v)", fromSchedule, keyed, labelled))
+		}
 	}
 	r.Check(hasGuard && !reach, "exporter-secret", "dtls.generateState13:masterSecret", c.ipos(al), "DTLS 1.3 states are refused by the exporter", "the DTLS 1.3 snapshot carries no secret and ExportKeyingMaterial has no DTLS 1.3 guard: exported keying material is PRF(empty secret, label + public hello randoms), computable by any observer; the derived exporter_master_secret is never used")
 }
@@ -897,4 +964,117 @@ func (c constFields) Fork() PathState {
 		d[k] = v
 	}
 	return d
+}
+
+// ruleResumeStateAlwaysConsulted (C19): a connection that was given a serialised state continues
+// that session whatever version range it was resumed with, as long as the range allows DTLS 1.2
+// (a serialised state is always a DTLS 1.2 state). In the function that picks the handshake start,
+// with a resume state present and the range set to 1.2..1.3, no version negotiation is reachable
+// and the DTLS 1.2 start - the only one that reads the resume state - is.
+func ruleResumeStateAlwaysConsulted(c *Ctx, r *Report) {
+	const rule = "resume-state-always-consulted"
+	fn := c.need(r, rule, "(*dtls.Conn).prepareHandshakeStart")
+	if fn == nil {
+		return
+	}
+	r.Sites += len(fn.Blocks)
+	globalName := func(v ssa.Value) string {
+		if u, ok := v.(*ssa.UnOp); ok && u.Op == token.MUL {
+			if g, ok := u.X.(*ssa.Global); ok {
+				return g.Name()
+			}
+		}
+		return ""
+	}
+	w := &Walk{Fn: fn, Assume: func(v ssa.Value) (Val, bool) {
+		if _, f, _, ok := fieldLoad(v); ok && f == "ResumeState" {
+			return vNil(false), true
+		}
+		bo, ok := v.(*ssa.BinOp)
+		if !ok || (bo.Op != token.EQL && bo.Op != token.NEQ) {
+			return unknown, false
+		}
+		field, ver := "", ""
+		for _, pr := range [][2]ssa.Value{{bo.X, bo.Y}, {bo.Y, bo.X}} {
+			if _, f, _, ok := fieldLoad(pr[0]); ok && (f == "MaxVersion" || f == "MinVersion") {
+				field, ver = f, globalName(pr[1])
+			}
+		}
+		if field == "" || ver == "" {
+			return unknown, false
+		}
+		// the range 1.2..1.3
+		eq := (field == "MinVersion" && ver == "Version1_2") || (field == "MaxVersion" && ver == "Version1_3")
+		return vBool(eq == (bo.Op == token.EQL)), true
+	}}
+	w.FromEntry()
+	consults, negotiates := false, ""
+	for in := range w.Reached {
+		cl, ok := in.(*ssa.Call)
+		if !ok {
+			continue
+		}
+		callee := cl.Call.StaticCallee()
+		if callee == nil {
+			continue
+		}
+		// does the callee read the resume state?
+		reads := false
+		for _, b := range callee.Blocks {
+			for _, ci := range b.Instrs {
+				if u, ok := ci.(*ssa.UnOp); ok {
+					if _, f, _, ok := fieldLoad(u); ok && f == "ResumeState" {
+						reads = true
+					}
+				}
+			}
+		}
+		if reads {
+			consults = true
+		} else if inModule(callee) && strings.Contains(strings.ToLower(callee.Name()), "handshakestart") {
+			negotiates = callee.Name()
+		}
+	}
+	r.Check(consults && negotiates == "", rule, short(fn), c.pos(fn.Pos()), "with a resume state and a 1.2..1.3 range only the start that reads the resume state is reachable", "a connection resumed with a version range that also allows DTLS 1.3 takes the start "+negotiates+", which never looks at the serialised state: the resumed connection sends a fresh ClientHello to a peer that is in an established session and never exchanges data")
+}
+
+// ruleExportCarriesReplayPosition (C19, C06): the exported state carries the position of the
+// receive side - what the connection has accepted so far - so that the resumed connection can
+// refuse records that were delivered before the export: the function that builds the exported
+// state reads the per-epoch highest accepted sequence number (Common.RemoteSequenceNumber) or
+// the replay detector. Without it the resumed connection starts with an empty window and every
+// record captured before the export is delivered again.
+func ruleExportCarriesReplayPosition(c *Ctx, r *Report) {
+	const rule = "export-carries-replay-position"
+	fn := c.need(r, rule, "dtls.generateState")
+	if fn == nil {
+		return
+	}
+	r.Sites += len(fn.Blocks)
+	reads := false
+	for _, u := range c.unitFuncs(fn) {
+		for _, b := range u.Blocks {
+			for _, in := range b.Instrs {
+				var v ssa.Value
+				switch x := in.(type) {
+				case *ssa.UnOp:
+					v = x
+				case *ssa.FieldAddr:
+					if st, _ := derefType(x.X.Type()).Underlying().(*types.Struct); st != nil {
+						f := fieldName(st.Field(x.Field))
+						if f == "RemoteSequenceNumber" || f == "ReplayDetector" {
+							reads = true
+						}
+					}
+					continue
+				default:
+					continue
+				}
+				if _, f, _, ok := fieldLoad(v); ok && (f == "RemoteSequenceNumber" || f == "ReplayDetector") {
+					reads = true
+				}
+			}
+		}
+	}
+	r.Check(reads, rule, short(fn)+":receive-position", c.pos(fn.Pos()), "the exported state is built from the receive position too", "the exported state is built without looking at what the connection has received (neither Common.RemoteSequenceNumber nor the replay detector is read): the resumed connection starts with an empty replay window and a record that was delivered before the export is delivered again when it is replayed after the resume")
 }
